@@ -266,6 +266,11 @@ func (store *Store) Truncate() error {
 	store.mut.Lock()
 	defer store.mut.Unlock()
 
+	// Skip operation if ReadWriter is not defined (no data directory).
+	if store.rw == nil {
+		return nil
+	}
+
 	verifhook.Point("aof.trunc.begin")
 	if err := store.rw.Truncate(0); err != nil {
 		return fmt.Errorf("truncate: truncate error: %+v", err)
